@@ -1515,7 +1515,7 @@ static int inline decode_literal_block(struct inflate_state *state)
                 state->block_state = ISAL_BLOCK_TYPE0;
         }
 
-        if (state->avail_in + bytes < len) {
+        if ((uint64_t) state->avail_in + bytes < len) {
                 len = state->avail_in + bytes;
                 state->block_state = ISAL_BLOCK_TYPE0;
         }
@@ -1557,7 +1557,7 @@ static int inline decode_literal_block(struct inflate_state *state)
         state->avail_in -= len;
         state->type0_block_len -= len;
 
-        if (state->avail_in + bytes == 0 && state->block_state != ISAL_BLOCK_INPUT_DONE)
+        if (state->avail_in == 0 && bytes == 0 && state->block_state != ISAL_BLOCK_INPUT_DONE)
                 return ISAL_END_INPUT;
 
         if (state->avail_out == 0 && state->type0_block_len > 0)
